@@ -15,7 +15,19 @@ Definition unb (s : cstate) (us : list use) := filter (fun u : use => negb (amem
 (* what a checking step does to the name bookkeeping, all other diagnostics and fields ignored:
    the only name diagnostics it adds are the unbound uses, in order *)
 (* error-severity diagnostics are never retracted *)
-Definition mono (s s' : cstate) : Prop := (errors_count (cs_diags s) <= errors_count (cs_diags s'))%nat.
+Definition mono (s s' : cstate) : Prop :=
+  (Nat.leb (errors_count (cs_diags s)) (errors_count (cs_diags s')) && Nat.leb (List.length (cs_diags s)) (List.length (cs_diags s'))) = true.
+
+Lemma mono_le s s' : mono s s' <->
+  (errors_count (cs_diags s) <= errors_count (cs_diags s'))%nat /\ (List.length (cs_diags s) <= List.length (cs_diags s'))%nat.
+Proof. unfold mono. rewrite Bool.andb_true_iff, !Nat.leb_le. tauto. Qed.
+
+Lemma mono_refl s : mono s s.
+Proof. apply mono_le. split; apply le_n. Qed.
+Lemma mono_same_diags s s' : cs_diags s' = cs_diags s -> mono s s'.
+Proof. intros H. apply mono_le. rewrite H. split; apply le_n. Qed.
+Lemma mono_trans a b c : mono a b -> mono b c -> mono a c.
+Proof. rewrite !mono_le. intros [A1 A2] [B1 B2]. split; [exact (Nat.le_trans _ _ _ A1 B1)|exact (Nat.le_trans _ _ _ A2 B2)]. Qed.
 
 Definition vstep (us : list use) (s s' : cstate) : Prop :=
   udiags s' = udiags s ++ unbd (unb s us) /\ cs_declared s' = cs_declared s /\ cs_unused s' = rm_uses us (cs_unused s)
@@ -24,9 +36,9 @@ Definition vstep (us : list use) (s s' : cstate) : Prop :=
 Definition vsame (s s' : cstate) : Prop :=
   udiags s' = udiags s /\ cs_declared s' = cs_declared s /\ cs_unused s' = cs_unused s /\ mono s s'.
 
-Lemma vsame_refl s : vsame s s. Proof. repeat split. apply le_n. Qed.
+Lemma vsame_refl s : vsame s s. Proof. repeat split. apply mono_refl. Qed.
 Lemma vsame_trans a b c : vsame a b -> vsame b c -> vsame a c.
-Proof. intros (A1 & A2 & A3 & A4) (B1 & B2 & B3 & B4). repeat split; try congruence. exact (Nat.le_trans _ _ _ A4 B4). Qed.
+Proof. intros (A1 & A2 & A3 & A4) (B1 & B2 & B3 & B4). split; [congruence|]. split; [congruence|]. split; [congruence|]. exact (mono_trans _ _ _ A4 B4). Qed.
 
 Lemma vstep_of_same s s' : vsame s s' -> vstep [] s s'.
 Proof. intros (A & B & C & D). repeat split; [unfold unb, unbd; cbn [filter map]; now rewrite app_nil_r|exact B|exact C|exact D]. Qed.
@@ -37,17 +49,17 @@ Proof.
   - rewrite A2, A1. unfold unb, unbd. rewrite B1, filter_app, map_app, app_assoc. reflexivity.
   - congruence.
   - rewrite C2, C1. unfold rm_uses. now rewrite fold_left_app.
-  - exact (Nat.le_trans _ _ _ D1 D2).
+  - exact (mono_trans _ _ _ D1 D2).
 Qed.
 
 Lemma errors_count_app a b : errors_count (a ++ b) = (errors_count a + errors_count b)%nat.
 Proof. unfold errors_count. now rewrite filter_app, app_length. Qed.
 
 Lemma mono_emit r k s : mono s (emit r k s).
-Proof. unfold mono. cbn [emit cs_diags]. rewrite errors_count_app. lia. Qed.
+Proof. apply mono_le. cbn [emit cs_diags]. rewrite errors_count_app, app_length. lia. Qed.
 
 Lemma mono_extends s s' : extends_diags s s' -> mono s s'.
-Proof. intros (D & H & _). unfold mono. rewrite H, errors_count_app. lia. Qed.
+Proof. intros (D & H & _). apply mono_le. rewrite H, errors_count_app, app_length. lia. Qed.
 
 Lemma vstep_same_l us s0 s s' : vsame s0 s -> vstep us s s' -> vstep us s0 s'.
 Proof. intros H1 H2. exact (vstep_app [] us _ _ _ (vstep_of_same _ _ H1) H2). Qed.
@@ -78,11 +90,11 @@ Proof.
     + assert (G : forall s2, udiags s2 = udiags s -> cs_declared s2 = cs_declared s -> cs_unused s2 = aremove name (cs_unused s) ->
                   mono s s2 -> vstep [(name, r)] s s2).
       { intros s2 A B C D. unfold vstep, unb, unbd. cbn [filter fst]. unfold amem. rewrite Ed. cbn [negb map]. repeat split; try assumption. now rewrite app_nil_r. }
-      destruct (vd_type d0) as [[? ty]|]; [destruct (is_type_allowed ty)|]; try (injection H as <-; apply G; try reflexivity; apply le_n).
-      destruct (assert_has_type_spec _ _ _ _ _ H) as [[-> _]| ->]; [apply G; try reflexivity; apply le_n|].
+      destruct (vd_type d0) as [[? ty]|]; [destruct (is_type_allowed ty)|]; try (injection H as <-; apply G; try reflexivity; apply mono_same_diags; reflexivity).
+      destruct (assert_has_type_spec _ _ _ _ _ H) as [[-> _]| ->]; [apply G; try reflexivity; apply mono_same_diags; reflexivity|].
       apply G; try reflexivity.
       * unfold udiags. cbn [emit cs_diags]. rewrite name_diags_app. cbn. now rewrite app_nil_r.
-      * unfold mono. cbn [emit cs_diags]. rewrite errors_count_app. lia.
+      * apply mono_le. cbn [emit cs_diags]. rewrite errors_count_app, app_length. lia.
     + injection H as <-. unfold vstep, unb, unbd. cbn [filter fst]. unfold amem. rewrite Ed. cbn [negb map fst snd]. repeat split; [|apply mono_emit].
       unfold udiags. cbn [emit cs_diags]. rewrite name_diags_app. reflexivity.
   - destruct (assert_has_type (Some r) t TypeMonetary s) as [s1| |] eqn:E1; cbn [bind] in H; try discriminate.
@@ -97,10 +109,10 @@ Proof.
       eapply vstep_same_l; [eapply vsame_assert; exact E0|]. eapply vstep_app; [eapply IHl; exact E1|eapply IHr; exact H].
 Qed.
 
-Lemma vsame_set_uis b s : vsame s (set_unbounded_in_send b s). Proof. repeat split. apply le_n. Qed.
-Lemma vsame_set_em l s : vsame s (set_emptied l s). Proof. repeat split. apply le_n. Qed.
-Lemma vsame_set_us b s : vsame s (set_unbounded_send b s). Proof. repeat split. apply le_n. Qed.
-Lemma vsame_add_fnres r b s : vsame s (add_fnres r b s). Proof. repeat split. apply le_n. Qed.
+Lemma vsame_set_uis b s : vsame s (set_unbounded_in_send b s). Proof. repeat split. apply mono_same_diags. reflexivity. Qed.
+Lemma vsame_set_em l s : vsame s (set_emptied l s). Proof. repeat split. apply mono_same_diags. reflexivity. Qed.
+Lemma vsame_set_us b s : vsame s (set_unbounded_send b s). Proof. repeat split. apply mono_same_diags. reflexivity. Qed.
+Lemma vsame_add_fnres r b s : vsame s (add_fnres r b s). Proof. repeat split. apply mono_same_diags. reflexivity. Qed.
 
 
 Ltac vsame_tac :=
